@@ -15,10 +15,11 @@ from vf.checks.common import Case, call, exc_text
 
 ID = "C15"
 LEVEL = "exploration"
-RULE = ("random closed curves (polygons int/Fraction/float, n-arc circles, Bezier blobs of degree 2-3, mixed-degree "
+RULE = ("(a) random closed curves (polygons int/Fraction/float, n-arc circles, Bezier blobs of degree 2-3, mixed-degree "
         "chains) x random multisets of (segment, parameter) pairs including repeated, nearly equal (1e-17..1e-5 apart), "
         "near-0/1 and exact 0/1 parameters x sequences of up to 6 split/clean calls; non-trivial = at least one "
-        "admissible interior parameter was split and judged; distinct = distinct case specs")
+        "admissible interior parameter was split and judged; (b) every fifth case: the split calls that | & - ^ make "
+        "internally on operand pairs of the C01 generator, judged by the same post-condition; distinct = distinct case specs")
 ASSUMPTIONS = [
     "oracle kernel (de Casteljau evaluation, exact areas, same_curve)",
     "rational straight data is compared exactly; float and curved data within 1e-6*max(1, diameter) as the property states",
@@ -94,10 +95,71 @@ def degrees(curve):
     return [len(s) - 1 for s in curve]
 
 
+def internal_case(ctx):
+    """the split calls that boolean operators make on (copies of) their operands, observed by
+    a post-condition attached to the real JordanCurve.split"""
+    import shapepy
+    from shapepy import jordancurve as jc
+
+    from vf import contracts, model as M, opwork as W
+
+    rng = ctx.rng
+    sa, sb, info = W.make_pair(rng, curved_prob=0.25, kinds="SSSSCDUV")
+    case = Case(ctx, {"A": sa, "B": sb, "mode": "internal"}, "internal-%s" % ("curved" if (G.spec_is_curved(sa) or G.spec_is_curved(sb)) else G.spec_num(sa)))
+    mon = contracts.Monitors()
+    seen = {"n": 0, "interior": 0}
+
+    def pre(args, kwargs):
+        jordan = args[0]
+        indexs = list(args[1]) if len(args) > 1 else list(kwargs.get("indexs"))
+        nodes = list(args[2]) if len(args) > 2 else list(kwargs.get("nodes"))
+        return S.snap_curve(jordan), list(zip(indexs, nodes)), P.curve_is_rational_straight(jordan)
+
+    def post(token, args, kwargs, result, exc):
+        if token is None:
+            return
+        before, pairs, exact = token
+        if not all(0 <= O.to_fr(n) <= 1 for _, n in pairs):
+            return
+        case.count("split:judged")
+        case.judged()
+        seen["n"] += 1
+        if any(P.PARAM_TOL <= O.to_fr(n) <= 1 - P.PARAM_TOL for _, n in pairs):
+            seen["interior"] += 1
+        for msg, det in P.judge_split(before, pairs, args[0], exact, exc)[:1]:
+            case.violate("split (called by an operator): " + msg, pairs=[[i, str(n)] for i, n in pairs], **det)
+
+    mon.attach(jc.JordanCurve, "split", pre=pre, post=post, label="JordanCurve.split")
+    try:
+        ops = ["or", "and", "sub", "xor"]
+        if G.spec_is_curved(sa) or G.spec_is_curved(sb):
+            ops = rng.sample(ops, 2)
+        for op in ops:
+            A, B = G.build(sa), G.build(sb)
+            guard = P.BigNumGuard()
+            guard.install()
+            try:
+                P.guarded_call(M.BINARY[op], A, B)
+            finally:
+                guard.remove()
+            if len(case.violations) >= 2:
+                break
+    finally:
+        mon.detach_all()
+    for v in mon.take_violations():
+        case.unsure("monitor error: %s" % str(v.get("tb", v["message"]))[-300:])
+    case.count("clean:judged", 0)
+    case.nontrivial = seen["interior"] > 0
+    case.spec["split_calls"] = seen["n"]
+    return case.finish()
+
+
 def case(ctx):
     import shapepy
 
     rng = ctx.rng
+    if ctx.index % 5 == 4:
+        return internal_case(ctx)
     spec, stratum = random_curve_spec(rng)
     case = Case(ctx, {"curve": spec}, stratum)
     jordan = lib_jordan(spec)
